@@ -639,6 +639,18 @@ func (in *inliner) findSites(pk *packages.Package, file *ast.File) []inlineSiteT
 			return true
 		}
 		nres := callee.Type().(*types.Signature).Results().Len()
+		before := len(out)
+		defer func() {
+			// the call sits inside a larger expression: hoist it in front of its statement when that cannot change the
+			// order of calls (no other call or receive lexically before it in the statement, not under && / ||, not in a
+			// function literal or a loop header)
+			if len(out) != before || nres != 1 {
+				return
+			}
+			if st, okH := hoistable(stack, k, inList); okH {
+				out = append(out, inlineSiteT{form: "hoist", stmt: st, call: call, callee: callee, calleeIdent: id})
+			}
+		}()
 		switch par := stack[k-1].(type) {
 		case *ast.ExprStmt:
 			if inList(k-1) || isElseOrBody(stack, k-1) {
@@ -723,6 +735,89 @@ func (in *inliner) findSites(pk *packages.Package, file *ast.File) []inlineSiteT
 		return true
 	})
 	return out
+}
+
+// hoistable: stack[k] is a call nested in an expression of a statement that stands in a statement list; returns that
+// statement when evaluating the call just before the statement is indistinguishable from evaluating it in place.
+func hoistable(stack []ast.Node, k int, inList func(int) bool) (ast.Stmt, bool) {
+	call := stack[k].(*ast.CallExpr)
+	j := k - 1
+	for ; j >= 1; j-- {
+		switch x := stack[j].(type) {
+		case *ast.FuncLit:
+			return nil, false
+		case *ast.BinaryExpr:
+			if (x.Op == token.LAND || x.Op == token.LOR) && stack[j+1] == ast.Node(x.Y) {
+				return nil, false // evaluated only conditionally
+			}
+		case *ast.KeyValueExpr, *ast.CompositeLit, *ast.ParenExpr, *ast.UnaryExpr, *ast.StarExpr, *ast.SelectorExpr, *ast.IndexExpr, *ast.SliceExpr, *ast.TypeAssertExpr, *ast.CallExpr:
+		case ast.Stmt:
+			goto found
+		default:
+			return nil, false
+		}
+	}
+	return nil, false
+found:
+	if !inList(j) {
+		return nil, false
+	}
+	st := stack[j].(ast.Stmt)
+	var scope ast.Node
+	switch x := st.(type) {
+	case *ast.ExprStmt, *ast.ReturnStmt, *ast.SendStmt, *ast.GoStmt, *ast.DeferStmt:
+		scope = st
+	case *ast.AssignStmt:
+		// the call must be on the right-hand side
+		onRhs := false
+		for _, r := range x.Rhs {
+			if r.Pos() <= call.Pos() && call.End() <= r.End() {
+				onRhs = true
+			}
+		}
+		if !onRhs {
+			return nil, false
+		}
+		scope = st
+	case *ast.IfStmt:
+		if x.Init != nil || !(x.Cond.Pos() <= call.Pos() && call.End() <= x.Cond.End()) {
+			return nil, false
+		}
+		scope = x.Cond
+	case *ast.DeclStmt:
+		scope = st
+	default:
+		return nil, false
+	}
+	// no other call or receive completely before this one in the statement
+	okOrder := true
+	ast.Inspect(scope, func(n ast.Node) bool {
+		switch y := n.(type) {
+		case *ast.FuncLit:
+			return false
+		case *ast.CallExpr:
+			if y.End() <= call.Pos() {
+				okOrder = false
+			}
+		case *ast.UnaryExpr:
+			if y.Op == token.ARROW && y.End() <= call.Pos() {
+				okOrder = false
+			}
+		}
+		return okOrder
+	})
+	// go f(h(x)) / defer f(h(x)): the arguments are evaluated at the statement, the call itself is not
+	switch x := st.(type) {
+	case *ast.GoStmt:
+		if x.Call == call {
+			return nil, false
+		}
+	case *ast.DeferStmt:
+		if x.Call == call {
+			return nil, false
+		}
+	}
+	return st, okOrder
 }
 
 // isElseOrBody: statement positions other than list elements where a block may stand (else branch, labelled).
@@ -1383,6 +1478,20 @@ func (in *inliner) expand(pk *packages.Package, file *ast.File, s inlineSiteT) (
 				after += " else " + csrcText(iff.Else)
 			}
 		}
+	case "hoist":
+		// tmp := h(a); S[h(a) ↦ tmp]
+		rt, okT := in.typeString(sig.Results().At(0).Type(), pk, file)
+		if !okT {
+			return "", false
+		}
+		t := fmt.Sprintf("rˑ0%s", suffix)
+		tmps = append(tmps, t)
+		before += fmt.Sprintf("var %s %s; ", t, rt)
+		fname := in.file(s.stmt.Pos())
+		src := in.content(fname)
+		a, b2 := in.off(s.stmt.Pos()), in.off(s.stmt.End())
+		ca, cb := in.off(s.call.Pos()), in.off(s.call.End())
+		after = string(src[a:ca]) + t + string(src[cb:b2])
 	case "for":
 		// for h(a) { B }  ≡  Lf: for { if h(a) { B } else { break Lf } }
 		fs := s.stmt.(*ast.ForStmt)
@@ -1442,7 +1551,7 @@ func (in *inliner) expand(pk *packages.Package, file *ast.File, s inlineSiteT) (
 	}
 	// with results, the deferred calls run after the result expressions have been evaluated and assigned: only the
 	// forms that assign the results to variables first can say that
-	if len(defers) > 0 && s.form != "stmt" && s.form != "assign" && s.form != "ifinit" {
+	if len(defers) > 0 && s.form != "stmt" && s.form != "assign" && s.form != "ifinit" && s.form != "hoist" {
 		return "", false
 	}
 	deferredAt := func(pos token.Pos) string {
@@ -1526,7 +1635,7 @@ func (in *inliner) expand(pk *packages.Package, file *ast.File, s inlineSiteT) (
 					}
 					txt = "return " + strings.Join(ops, ", ")
 				}
-			case "assign", "ifinit":
+			case "assign", "ifinit", "hoist":
 				if s.absorb {
 					nilness := ""
 					switch {
@@ -1652,7 +1761,7 @@ func (in *inliner) expand(pk *packages.Package, file *ast.File, s inlineSiteT) (
 	}
 
 	var b strings.Builder
-	wrapAll := s.form != "assign"
+	wrapAll := s.form != "assign" && s.form != "hoist"
 	if s.form == "ifinit" && s.absorb {
 		if init := s.stmt.(*ast.IfStmt); init != nil {
 			_ = init
@@ -1685,7 +1794,11 @@ func (in *inliner) expand(pk *packages.Package, file *ast.File, s inlineSiteT) (
 		b.WriteString(" }")
 	}
 	if after != "" {
-		b.WriteString("; " + after)
+		if s.form == "hoist" {
+			b.WriteString(";" + in.lineDirective(s.stmt.Pos()) + after)
+		} else {
+			b.WriteString("; " + after)
+		}
 	}
 	if wrapAll {
 		b.WriteString(" }")
